@@ -1,6 +1,7 @@
 package c09
 
 import (
+	"bytes"
 	"fmt"
 	"math/big"
 	"testing"
@@ -30,38 +31,103 @@ type grp[L any, E any] struct {
 	unm     func(dst L, b []byte) ([]byte, error)
 	unmC    func(dst L, b []byte) ([]byte, error)
 	encC    func(apt[E]) []byte
+	// readOnly calls the exported methods that are not supposed to change the
+	// element (String, fmt %v, Equal, IsOnCurve, Marshal*); which selects one.
+	readOnly func(a, other L, which int, finite bool) error
+}
+
+var readOnlyNames = []string{"String", "fmt-%v", "Equal", "IsOnCurve", "Marshal", "MarshalUncompressed", "MarshalCompressed"}
+
+func readOnlyG1(a, other *vh.G1, which int, finite bool) error {
+	switch which % len(readOnlyNames) {
+	case 0:
+		_ = a.String()
+	case 1:
+		_ = fmt.Sprintf("%v %s", a, a)
+	case 2:
+		if !a.Equal(new(vh.G1).Set(a)) {
+			return fmt.Errorf("G1.Equal(x, Set copy of x) = false")
+		}
+		if a.Equal(other) && !bytes.Equal(copyG1(a).Marshal(), copyG1(other).Marshal()) {
+			return fmt.Errorf("G1.Equal = true for two different points %x / %x", copyG1(a).Marshal(), copyG1(other).Marshal())
+		}
+	case 3:
+		if !a.IsOnCurve() {
+			return fmt.Errorf("G1.IsOnCurve() = false for %x", copyG1(a).Marshal())
+		}
+	case 4:
+		scribble(a.Marshal())
+	case 5:
+		scribble(a.MarshalUncompressed())
+	case 6:
+		if finite {
+			scribble(a.MarshalCompressed())
+		}
+	}
+	return nil
+}
+
+func readOnlyG2(a, other *vh.G2, which int, finite bool) error {
+	switch which % len(readOnlyNames) {
+	case 0:
+		_ = a.String()
+	case 1:
+		_ = fmt.Sprintf("%v %s", a, a)
+	case 2:
+		if !a.Equal(new(vh.G2).Set(a)) {
+			return fmt.Errorf("G2.Equal(x, Set copy of x) = false")
+		}
+		if a.Equal(other) && !bytes.Equal(copyG2(a).Marshal(), copyG2(other).Marshal()) {
+			return fmt.Errorf("G2.Equal = true for two different points %x / %x", copyG2(a).Marshal(), copyG2(other).Marshal())
+		}
+	case 3:
+		if !a.IsOnCurve() {
+			return fmt.Errorf("G2.IsOnCurve() = false for %x", copyG2(a).Marshal())
+		}
+	case 4:
+		scribble(a.Marshal())
+	case 5:
+		scribble(a.MarshalUncompressed())
+	case 6:
+		if finite {
+			scribble(a.MarshalCompressed())
+		}
+	}
+	return nil
 }
 
 var grp1 = grp[*vh.G1, *big.Int]{
 	name: "G1", cv: e1, encLen: 64, enc: g1Bytes,
-	newL:    func() *vh.G1 { return new(vh.G1) },
-	base:    func(dst *vh.G1, k []byte) (*vh.G1, error) { return dst.ScalarBaseMult(k) },
-	mult:    func(dst, a *vh.G1, k []byte) (*vh.G1, error) { return dst.ScalarMult(a, k) },
-	add:     func(dst, a, b *vh.G1) *vh.G1 { return dst.Add(a, b) },
-	neg:     func(dst, a *vh.G1) *vh.G1 { return dst.Neg(a) },
-	dbl:     func(dst, a *vh.G1) *vh.G1 { return dst.Double(a) },
-	marshal: func(a *vh.G1) []byte { return a.Marshal() },
-	set:     func(dst, a *vh.G1) *vh.G1 { return dst.Set(a) },
-	isNil:   func(a *vh.G1) bool { return a == nil },
-	unm:     func(dst *vh.G1, b []byte) ([]byte, error) { return dst.Unmarshal(b) },
-	unmC:    func(dst *vh.G1, b []byte) ([]byte, error) { return dst.UnmarshalCompressed(b) },
-	encC:    g1Compressed,
+	newL:     func() *vh.G1 { return new(vh.G1) },
+	base:     func(dst *vh.G1, k []byte) (*vh.G1, error) { return dst.ScalarBaseMult(k) },
+	mult:     func(dst, a *vh.G1, k []byte) (*vh.G1, error) { return dst.ScalarMult(a, k) },
+	add:      func(dst, a, b *vh.G1) *vh.G1 { return dst.Add(a, b) },
+	neg:      func(dst, a *vh.G1) *vh.G1 { return dst.Neg(a) },
+	dbl:      func(dst, a *vh.G1) *vh.G1 { return dst.Double(a) },
+	marshal:  func(a *vh.G1) []byte { return a.Marshal() },
+	set:      func(dst, a *vh.G1) *vh.G1 { return dst.Set(a) },
+	isNil:    func(a *vh.G1) bool { return a == nil },
+	unm:      func(dst *vh.G1, b []byte) ([]byte, error) { return dst.Unmarshal(b) },
+	unmC:     func(dst *vh.G1, b []byte) ([]byte, error) { return dst.UnmarshalCompressed(b) },
+	encC:     g1Compressed,
+	readOnly: readOnlyG1,
 }
 
 var grp2 = grp[*vh.G2, fp2]{
 	name: "G2", cv: e2, encLen: 128, enc: g2Bytes,
-	newL:    func() *vh.G2 { return new(vh.G2) },
-	base:    func(dst *vh.G2, k []byte) (*vh.G2, error) { return dst.ScalarBaseMult(k) },
-	mult:    func(dst, a *vh.G2, k []byte) (*vh.G2, error) { return dst.ScalarMult(a, k) },
-	add:     func(dst, a, b *vh.G2) *vh.G2 { return dst.Add(a, b) },
-	neg:     func(dst, a *vh.G2) *vh.G2 { return dst.Neg(a) },
-	dbl:     func(dst, a *vh.G2) *vh.G2 { return dst.Add(a, a) }, // G2 exports no Double
-	marshal: func(a *vh.G2) []byte { return a.Marshal() },
-	set:     func(dst, a *vh.G2) *vh.G2 { return dst.Set(a) },
-	isNil:   func(a *vh.G2) bool { return a == nil },
-	unm:     func(dst *vh.G2, b []byte) ([]byte, error) { return dst.Unmarshal(b) },
-	unmC:    func(dst *vh.G2, b []byte) ([]byte, error) { return dst.UnmarshalCompressed(b) },
-	encC:    g2Compressed,
+	newL:     func() *vh.G2 { return new(vh.G2) },
+	base:     func(dst *vh.G2, k []byte) (*vh.G2, error) { return dst.ScalarBaseMult(k) },
+	mult:     func(dst, a *vh.G2, k []byte) (*vh.G2, error) { return dst.ScalarMult(a, k) },
+	add:      func(dst, a, b *vh.G2) *vh.G2 { return dst.Add(a, b) },
+	neg:      func(dst, a *vh.G2) *vh.G2 { return dst.Neg(a) },
+	dbl:      func(dst, a *vh.G2) *vh.G2 { return dst.Add(a, a) }, // G2 exports no Double
+	marshal:  func(a *vh.G2) []byte { return a.Marshal() },
+	set:      func(dst, a *vh.G2) *vh.G2 { return dst.Set(a) },
+	isNil:    func(a *vh.G2) bool { return a == nil },
+	unm:      func(dst *vh.G2, b []byte) ([]byte, error) { return dst.Unmarshal(b) },
+	unmC:     func(dst *vh.G2, b []byte) ([]byte, error) { return dst.UnmarshalCompressed(b) },
+	encC:     g2Compressed,
+	readOnly: readOnlyG2,
 }
 
 func (g *grp[L, E]) generator() apt[E] {
@@ -585,7 +651,8 @@ type op struct {
 	// 0 Add, 1 Neg, 2 Double, 3 ScalarMult by K, 4 normalise (Marshal), 5 Set,
 	// 6 decode the encoding of rX into rDst (K even: Unmarshal, odd: UnmarshalCompressed; K&2: input overwritten afterwards),
 	// 7 a failing decode into rDst followed by a decode of rX's encoding into the same element,
-	// 8 ScalarBaseMult(K) into rDst, 9 Marshal rX and overwrite the returned slice
+	// 8 ScalarBaseMult(K) into rDst, 9 Marshal rX and overwrite the returned slice,
+	// 10 a method that must not change rX: String / fmt %v / Equal / IsOnCurve / Marshal* (K selects)
 	Kind int
 	Dst  int
 	X, Y int
@@ -597,7 +664,7 @@ type chainCase struct {
 	Ops  []op
 }
 
-var opNames = []string{"add", "neg", "double", "scalarmult", "normalise", "set", "decode", "failed-decode-then-decode", "basemult", "marshal-scribble"}
+var opNames = []string{"add", "neg", "double", "scalarmult", "normalise", "set", "decode", "failed-decode-then-decode", "basemult", "marshal-scribble", "read-only-method"}
 
 func genChain(t *rapid.T) chainCase {
 	c := chainCase{}
@@ -607,7 +674,7 @@ func genChain(t *rapid.T) chainCase {
 	n := rapid.IntRange(1, 12).Draw(t, "nops")
 	for i := 0; i < n; i++ {
 		c.Ops = append(c.Ops, op{
-			Kind: rapid.SampledFrom([]int{0, 0, 0, 0, 1, 1, 2, 2, 3, 4, 5, 6, 6, 7, 7, 8, 9}).Draw(t, "kind"),
+			Kind: rapid.SampledFrom([]int{0, 0, 0, 0, 1, 1, 2, 2, 3, 4, 5, 6, 6, 7, 7, 8, 9, 10, 10, 10}).Draw(t, "kind"),
 			Dst:  rapid.IntRange(0, 2).Draw(t, "dst"),
 			X:    rapid.IntRange(0, 2).Draw(t, "x"),
 			Y:    rapid.IntRange(0, 2).Draw(t, "y"),
@@ -722,6 +789,12 @@ func checkChain[L any, E any](g *grp[L, E]) func(c chainCase, r *h.Rec) error {
 					return err
 				}
 				scribble(b)
+			case 10:
+				nt = true
+				r.Label("read-only-" + readOnlyNames[o.K%len(readOnlyNames)])
+				if err := g.readOnly(reg[o.X], reg[o.Y], o.K, !mod[o.X].Inf); err != nil {
+					return fmt.Errorf("%v (trace%s)", err, trace)
+				}
 			}
 			for j := range reg {
 				if err := eqBytes(fmt.Sprintf("%s register r%d after%s (init %x %x %x)", g.name, j, trace, []byte(c.Init[0]), []byte(c.Init[1]), []byte(c.Init[2])),
